@@ -49,6 +49,7 @@ def run_one(d, checks):
                 res["caught_by"].append(c)
     finally:
         sh("git -C %s checkout -- ." % REPO)
+        sh("git -C %s clean -fdq" % REPO)  # files a patch adds (its own tests)
     assert sh("git -C %s status --porcelain" % REPO).stdout.strip() == ""
     # a run of a subset of the checks is merged into the earlier results
     rp = os.path.join(d, "result.json")
